@@ -236,8 +236,54 @@ class ModuleState(object):
             cls._candidates = out
         return cls._candidates
 
+    _owners = None
+
+    @classmethod
+    def owners(cls):
+        """Functions and classes defined by the library's modules (state can hide in function attributes and in
+        class-level containers as well as in module globals)."""
+        if cls._owners is None:
+            import sys
+            import types
+            funcs, classes = [], []
+            seen = set()
+            for name, mod in sorted(sys.modules.items()):
+                if not (name == 'stix2' or name.startswith('stix2.')) or mod is None or '.test' in name:
+                    continue
+                for attr, obj in sorted(vars(mod).items()):
+                    if id(obj) in seen or getattr(obj, '__module__', None) != name:
+                        continue
+                    if isinstance(obj, types.FunctionType):
+                        seen.add(id(obj))
+                        funcs.append(('%s.%s' % (name, attr), obj))
+                    elif isinstance(obj, type):
+                        seen.add(id(obj))
+                        classes.append(('%s.%s' % (name, attr), obj))
+                        for a2, o2 in sorted(vars(obj).items()):
+                            f = getattr(o2, '__func__', o2)
+                            if isinstance(f, types.FunctionType) and id(f) not in seen:
+                                seen.add(id(f))
+                                funcs.append(('%s.%s.%s' % (name, attr, a2), f))
+            cls._owners = (funcs, classes)
+        return cls._owners
+
+    @staticmethod
+    def _snap(o):
+        return dict(o) if isinstance(o, dict) else set(o) if isinstance(o, set) else list(o)
+
+    @staticmethod
+    def _class_containers(c):
+        return {a: o for a, o in vars(c).items() if not a.startswith('__') and isinstance(o, (dict, set, list))}
+
     def __init__(self):
-        self.saved = [(m, a, o, (dict(o) if isinstance(o, dict) else set(o) if isinstance(o, set) else list(o))) for m, a, o in self.candidates()]
+        self.saved = [(m, a, o, self._snap(o)) for m, a, o in self.candidates()]
+        funcs, classes = self.owners()
+        self.fsaved = {id(f): dict(f.__dict__) for _, f in funcs if f.__dict__}
+        self.csaved = {}
+        for _, c in classes:
+            cc = self._class_containers(c)
+            if cc:
+                self.csaved[id(c)] = {a: (o, self._snap(o)) for a, o in cc.items()}
 
     def restore(self):
         changed = []
@@ -256,6 +302,41 @@ class ModuleState(object):
                     o.update(snap)
                 else:
                     o[:] = snap
+        funcs, classes = self.owners()
+        for qn, f in funcs:
+            if f.__dict__ or id(f) in self.fsaved:
+                was = self.fsaved.get(id(f), {})
+                if f.__dict__ != was or any(f.__dict__[k] is not was[k] for k in was):
+                    changed.append('function-attributes:' + qn)
+                    f.__dict__.clear()
+                    f.__dict__.update(was)
+        for qn, c in classes:
+            now = self._class_containers(c)
+            was = self.csaved.get(id(c), {})
+            for a in now:
+                if a not in was:
+                    changed.append('class-attribute-added:%s.%s' % (qn, a))
+                    try:
+                        delattr(c, a)
+                    except Exception:
+                        pass
+            for a, (o, snap) in was.items():
+                try:
+                    same = (now.get(a) is o) and (o == snap) and (not isinstance(o, dict) or list(o) == list(snap))
+                except Exception:
+                    same = False
+                if not same:
+                    changed.append('class-attribute:%s.%s' % (qn, a))
+                    if isinstance(o, (dict, set)):
+                        o.clear()
+                        o.update(snap)
+                    else:
+                        o[:] = snap
+                    if now.get(a) is not o:
+                        try:
+                            setattr(c, a, o)
+                        except Exception:
+                            pass
         return changed
 
 
